@@ -33,7 +33,15 @@
 #include <stdlib.h>
 #include <unistd.h>
 #include <sys/types.h>
+#include <errno.h>
 #include <pwd.h>
+
+
+
+/*
+ * Local defines
+ */
+#define   SNOOPY_DATASOURCE_EUSERNAME_BUF_MAX_SIZE   1048576   // Stop enlarging the lookup buffer here
 
 
 
@@ -57,6 +65,7 @@ int snoopy_datasource_eusername (char * const resultBuf, size_t resultBufSize, _
     char          *buffpwd_uid     = NULL;
     long           buffpwdsize_uid = 0;
     int            messageLength  = 0;
+    int            retVal         = 0;
 
     /* Allocate memory */
     buffpwdsize_uid = sysconf(_SC_GETPW_R_SIZE_MAX);
@@ -68,8 +77,22 @@ int snoopy_datasource_eusername (char * const resultBuf, size_t resultBufSize, _
         return snprintf(resultBuf, resultBufSize, "ERROR(malloc)");
     }
 
-    /* Try to get data */
-    if (0 != getpwuid_r(geteuid(), &pwd, buffpwd_uid, buffpwdsize_uid, &pwd_uid)) {
+    /* Try to get data - a long entry needs a larger buffer than the suggested initial size */
+    while (ERANGE == (retVal = getpwuid_r(geteuid(), &pwd, buffpwd_uid, buffpwdsize_uid, &pwd_uid))) {
+        char *biggerBuf;
+
+        if (buffpwdsize_uid >= SNOOPY_DATASOURCE_EUSERNAME_BUF_MAX_SIZE) {
+            break;
+        }
+        buffpwdsize_uid *= 2;
+        biggerBuf = realloc(buffpwd_uid, buffpwdsize_uid);
+        if (NULL == biggerBuf) {
+            free(buffpwd_uid);
+            return snprintf(resultBuf, resultBufSize, "ERROR(malloc)");
+        }
+        buffpwd_uid = biggerBuf;
+    }
+    if (0 != retVal) {
         messageLength  = snprintf(resultBuf, resultBufSize, "ERROR(getpwuid_r)");
     } else {
         if (NULL == pwd_uid) {
